@@ -747,11 +747,9 @@ fn diff(a: &ObjOut, b: &ObjOut) -> &'static str {
         (ObjOut::Err(_), ObjOut::Ok { .. }) => "err-vs-ok",
         (ObjOut::Ok { .. }, ObjOut::Err(_)) => "ok-vs-err",
         (ObjOut::Err(x), ObjOut::Err(y)) => {
-            if x == y {
-                "equal"
-            } else {
-                "error-kind"
-            }
+            // which error is not part of either property: "or an error"
+            let _ = (x, y);
+            "equal"
         }
     }
 }
